@@ -65,7 +65,7 @@ var coordsWide = []string{"", " X1:1 X2:2 Y1:3 Y2:4", " X1:100,5 Y1:2.5", "\tX1:
 var blankForms = []string{"", " ", "\t", "  "}
 
 func fullProfile(thorough bool) profile {
-	p := profile{ncues: []int{1, 0, 2}, starts: allStarts, ends: []int{0, 1, 2, 3, 4, 5, 6, 7, 8, 9}, nlines: []int{1, 2}, nruns: []int{1, 2}, styles: allStyles, texts: allTexts, render: true, wide: true}
+	p := profile{ncues: []int{1, 0, 2}, starts: allStarts, ends: []int{0, 1, 2, 3, 4, 5, 6, 7, 8, 9}, nlines: []int{1, 2, 0}, nruns: []int{1, 2}, styles: allStyles, texts: allTexts, render: true, wide: true}
 	if thorough {
 		p.ncues = []int{1, 0, 2, 3}
 		p.nlines = []int{1, 2, 3}
